@@ -677,6 +677,9 @@ class Sym:
                         if rng[0] is not None and widened:
                             k_ = int(n.const_value())
                             self.sym_box[nm] = (k_ * rng[0], k_ * rng[1])
+                            if not hasattr(self, "sum_ranges"):
+                                self.sum_ranges = {}
+                            self.sum_ranges[nm] = (k_ * rng[0], k_ * rng[1])   # derived from count x element range
                 return Poly.sym(nm)
             mo = None
             if s in ("Mul::mul", "Add::add", "Sub::sub") and len(t[2]) == 2:
